@@ -6,7 +6,7 @@ import (
 )
 
 // c10Tuple: correspondence and oracle for the multi-target assignment (lean/Goat/Model/Tuple.lean). One case = a
-// function with a slice `a`, an alias `b := a[off:]`, a map `m` and two variables - each element, entry and variable
+// function with a slice `a`, an alias `b := a[off:]`, a map `m`, two variables and two index variables `p`, `q` - each element, entry and variable
 // is a numbered cell - and ONE assignment with 2..4 targets drawn from a[i], b[j], m[k], x, y and _, the indices
 // literal or read from index variables, the values literals or reads of cells (swap shapes). The script prints every
 // cell afterwards. Correspondence: the model's `implStores` (last target first) on the same cells. Oracle: Go's
@@ -22,11 +22,12 @@ func (c *Ctx) c10Tuple() error {
 	for it := 0; it < n; it++ {
 		na, km := 2+r.Intn(4), 1+r.Intn(3)
 		off := r.Intn(na)
-		cells := make([]int, na+km+2)
+		cells := make([]int, na+km+4) // slice elements, map entries, x, y and the index variables p, q
 		for i := range cells {
 			cells[i] = 10 + i
 		}
-		xCell, yCell := na+km, na+km+1
+		xCell, yCell, pCell, qCell := na+km, na+km+1, na+km+2, na+km+3
+		cells[pCell], cells[qCell] = 0, 1
 		var sb strings.Builder
 		sb.WriteString("func run() {\n\ta := []int{")
 		for i := 0; i < na; i++ {
@@ -56,6 +57,10 @@ func (c *Ctx) c10Tuple() error {
 				return fmt.Sprintf("m[%s]", idx(cell-na))
 			case cell == xCell:
 				return "x"
+			case cell == pCell:
+				return "p" // (the index variable itself is a target: indices of the other targets are its OLD value)
+			case cell == qCell:
+				return "q"
 			}
 			return "y"
 		}
@@ -92,7 +97,7 @@ func (c *Ctx) c10Tuple() error {
 		for k := 0; k < km; k++ {
 			fmt.Fprintf(&sb, "m[%d], ", k)
 		}
-		sb.WriteString("x, y, p+q)\n}\nrun()\n")
+		sb.WriteString("x, y, p, q)\n}\nrun()\n")
 		src := sb.String()
 		out, err := runScript(src)
 		got := strings.TrimSpace(out)
@@ -128,7 +133,7 @@ func (c *Ctx) c10Tuple() error {
 		} else {
 			c.Rep.Count("tuple-distinct-or-equal")
 			c.Rep.Oracle["tuple-go-order"]++
-			if w := strings.Join(ws, " ") + " 1"; got != w {
+			if w := strings.Join(ws, " "); got != w {
 				c.Rep.Violate(Violation{Kind: "oracle", Cut: "tuple-go-order", Input: src, Impl: got, Oracle: w})
 			}
 		}
@@ -137,7 +142,7 @@ func (c *Ctx) c10Tuple() error {
 			cs[i] = fmt.Sprint(v)
 		}
 		lines = append(lines, "ta impl "+strings.Join(cs, " ")+" | "+strings.Join(pairs, " "))
-		impl = append(impl, strings.TrimSuffix(got, " 1"))
+		impl = append(impl, got)
 		srcs = append(srcs, src)
 		if it == 0 {
 			c.Rep.Sample(map[string]any{"tuple_script": src})
